@@ -243,6 +243,17 @@ func checkGuarded(e *Env, rule string, f *ssa.Function, owner, field, mutexField
 			e.R.OkTrivial(rule, construct, e.pos(a.Instr), "object is being constructed in this function (not yet shared)")
 			continue
 		}
+		// an access in a helper analysed as part of f whose receiver is, seen from f, the object f is constructing
+		if a.Instr.Parent() != f {
+			if fa, isFA := a.Instr.(*ssa.FieldAddr); isFA {
+				if alts := core.ResolveIn(f, fa.X); len(alts) == 1 {
+					if al, isAl := alts[0].(*ssa.Alloc); isAl && al.Parent() == f {
+						e.R.OkTrivial(rule, construct, e.pos(a.Instr), "object is being constructed by the caller (not yet shared)")
+						continue
+					}
+				}
+			}
+		}
 		held := la.At(a.Instr)
 		h, ok := held[a.Base+"."+mutexField]
 		switch {
@@ -861,12 +872,22 @@ func checkExpiryPredicateAs(e *Env, rule string) {
 		for _, c := range core.CallsNamed(f, "pkg/sync.Map.Load") {
 			load, _ = c.(*ssa.Call)
 		}
+		// a value as seen from Cache.Load: a parameter of a helper shared with other callers is the argument of Load's call
+		here := func(v ssa.Value) ssa.Value {
+			r := core.Resolve(v)
+			if _, isP := r.(*ssa.Parameter); isP {
+				if alts := core.ResolveIn(f, v); len(alts) == 1 {
+					return alts[0]
+				}
+			}
+			return r
+		}
 		bf := &core.BoolFn{Fn: f, AtomOf: func(v ssa.Value) (string, bool, bool) {
-			if ex, ok := core.Resolve(v).(*ssa.Extract); ok && load != nil && ex.Tuple == ssa.Value(load) && ex.Index == 1 {
+			if ex, ok := here(v).(*ssa.Extract); ok && load != nil && ex.Tuple == ssa.Value(load) && ex.Index == 1 {
 				return "present", false, true
 			}
 			if ic, ok := core.CondCall(v, "pkg/cache.Element.IsExpired"); ok {
-				if ex, isEx := core.Resolve(core.Unwrap(core.Arg(ic, 0))).(*ssa.Extract); isEx && load != nil && ex.Tuple == ssa.Value(load) && ex.Index == 0 {
+				if ex, isEx := here(core.Unwrap(core.ArgRaw(ic, 0))).(*ssa.Extract); isEx && load != nil && ex.Tuple == ssa.Value(load) && ex.Index == 0 {
 					return "expired", false, true
 				}
 			}
